@@ -72,7 +72,7 @@ CHECKS = {
    note="The printer (model.Layout.Print) is trusted. Projects the library rejects (e.g. values above the integer range after the fix) have no AST and are counted inconclusive. A type name as rule value may be reported as string or reference."),
  "C14": dict(
    category="model_checking", design_ref="DESIGN.md §3 C14",
-   technique="TLA+ layout space (Layout.tla, 1620 layouts reached by toggle actions) x SchemaText.tla projects; metamorphic comparison of all observables within each orbit, plus context-free transformations of the repository corpus",
+   technique="TLA+ layout space (Layout.tla, 2160 layouts reached by toggle actions) x SchemaText.tla projects; metamorphic comparison of all observables within each orbit, plus context-free transformations of the repository corpus",
    text="Layout.tla enumerates the presentation vectors (line ends x annotation style x five ways of quoting rule names - none, all, top level only, nested only, alternating - x padding x # and ### user comments x leading/trailing blank lines); every SchemaText project is printed under the plain layout and a seeded sample (24 quick / 160 thorough) of the others: verdict and error code, AST (notes modulo blank runs), example, used types and OpenAPI JSON must be identical. Every schema-like literal of the repository's tests is compared with its CRLF, CR, leading-blank, trailing-blank and trailing-space variants.",
    note="The printer only produces layouts that keep each annotated element alone on its line and comments on their own line or after an unannotated value. Texts that stop in the middle of an element (code 303) are excluded from the trailing transformations."),
  "C15": dict(
